@@ -415,6 +415,7 @@ def main():
     for k, rep, cnt in seen_known:
         print(f"KNOWN-FINDING: property={pid} {k['what']} [signature {k['signature']}; {cnt} case(s) this run; e.g. {rep['case'][:200]}]")
 
+    new.sort(key=lambda x: 0 if x[1]["kind"] == "oracle" else 1)   # concrete failing inputs first
     violation = bool(new) or bool(ctx.broken)
     replay_path = None
     if violation:
